@@ -549,7 +549,7 @@ void PLS(matrix *mx, matrix *my, size_t nlv, int xautoscaling, int yautoscaling,
       ResizeMatrix(model->recalc_residuals, my->row, my->col*nlv);
       for(i = 0; i < model->recalculated_y->row; i++){
         for(j = 0; j < model->recalculated_y->col; j++){
-          model->recalc_residuals->data[i][j] = model->recalculated_y->data[i][j] - my->data[i][(size_t)floor(j/nlv)];
+          model->recalc_residuals->data[i][j] = model->recalculated_y->data[i][j] - my->data[i][j % my->col];
         }
       }
 
